@@ -197,6 +197,18 @@ class C13(RebuildProp):
                 f["cands"] = [dict(self.cand(rng, "intact", search=0), shared=(fi == 1))]
                 f["dest_pre"] = "absent"
             out.append({"version": v, "P": B, "tree": t, "nsearch": 1, "unrelated": 1, "clauses": list(self.clauses)})
+        # differently named files with identical bytes whose copies in the search directory are hard links of
+        # one another (what jdupes -L / cp -l leave behind)
+        for v in (1, 2, 3):
+            for P in (B, 2 * B):
+                t = {"name": "tTwins", "single": False,
+                     "files": [{"path": ["intro.bin"], "size": P + 9, "mode": "same"}, {"path": ["mid.bin"], "size": 5},
+                               {"path": ["sub", "outro.bin"], "size": P + 9, "mode": "same"}]}
+                for f in t["files"]:
+                    f["cands"] = [self.cand(rng, "intact", search=0)]
+                    f["dest_pre"] = "absent"
+                out.append({"version": v, "P": P, "tree": t, "nsearch": 1, "unrelated": 1, "clauses": list(self.clauses),
+                            "hardlink_cands": True})
         # batches of two metafiles in one metafile directory; both torrents contain files with the
         # same names ("a", "b"), so each one's copies are same-named decoys for the other
         for k in range(60 if tier == "thorough" else 18):
